@@ -452,6 +452,10 @@ func (r *Runner) Step(op Op) (fail *Fail) {
 	for _, fn := range r.BeforeStep {
 		fn(r, &op)
 	}
+	if r.Poison != nil {
+		// stale contents of pooled buffers must not make a read beyond the filled length look right
+		PoisonPools(2)
+	}
 	touched, global, f := r.exec(&op)
 	if f != nil {
 		return f
@@ -1049,9 +1053,12 @@ func (r *Runner) execMerge(op *Op) (touched [][]byte, global bool, fail *Fail) {
 		r.IO.OnPoint = func(name string, key []byte) {
 			// At < 0: right after the merge rotation released the lock (before the scan starts);
 			// At >= 0: at the At-th scanned record
+			// At == -2: after the scan, before the hint file and the marker are written
 			at := scanned
 			if name == "merge.rotated" {
 				at = -1
+			} else if name == "merge.scanned" {
+				at = -2
 			} else if name != "merge.scan" {
 				return
 			}
@@ -1074,6 +1081,27 @@ func (r *Runner) execMerge(op *Op) (touched [][]byte, global bool, fail *Fail) {
 							r.modelDel(w.Key)
 							r.F.Muts++
 						}
+					case "bput":
+						// a one-put batch committed while the merge is under way
+						val := OpValue(w.VSeed, w.VLen)
+						b := r.DB.NewBatch(kv.DefaultBatchOptions)
+						err := b.Put(append([]byte(nil), w.Key...), val)
+						if err == nil {
+							err = b.Commit()
+						}
+						if err != nil {
+							raceFail = failf("batch-error", "a batch racing with Merge failed: %v", err)
+						} else {
+							r.modelPut(w.Key, val, true)
+							r.F.Muts++
+						}
+					case "merge":
+						// a second Merge while one is running is rejected and leaves the first one alone
+						if err := r.DB.Merge(); !errors.Is(err, kv.ErrMergeIsProgress) {
+							raceFail = failf("nested-merge-not-rejected", "Merge() called while a merge is scanning returned %v, want ErrMergeIsProgress", err)
+						}
+						r.Stats.Label("merge-attempt-during-merge")
+						continue
 					}
 					touched = append(touched, w.Key)
 				}
